@@ -15,28 +15,34 @@ def composite(ctx, rid, qname, mode):
     m = qname.split('::')[-1]
     inner = [c for c in fn.all('CXXMemberCallExpr') if (fn.nodes[c].get('callee') or '').endswith('::' + m)]
     loops = fn.all('CXXForRangeStmt', 'ForStmt', 'WhileStmt')
-    if len(inner) != 1 or not loops:
-        raise AnalysisBroken('%s: composite %s is no longer a loop over children with one delegated call' % (rid, qname))
-    ck = fn.key(inner[0])
+    if not inner or not loops:
+        raise AnalysisBroken('%s: composite %s is no longer a loop over children with a delegated call' % (rid, qname))
+    cks = set(fn.key(c) for c in inner)
     rets = fn.all('ReturnStmt')
     inloop = set()
     for l in loops:
         inloop |= set(fn.walk(l))
     early = [r for r in rets if r in inloop]
     final = [r for r in rets if r not in inloop]
-    if not early or len(final) != 1:
+    if not early or not final:
         raise AnalysisBroken('%s: %s shape not recognised (early returns %d, final returns %d)' % (rid, qname, len(early), len(final)))
     want_early = 1 if mode == 'exists' else 0
+    pol = (mode == 'exists')
     for r in early:
         rv = fn.val(fn.nodes[r].get('val'))
         atoms = set((a[0], a[1]) for a in fn.atoms(r))
-        # the delegated call decides the early return with the right polarity
-        pol = (mode == 'exists')
-        ok = rv == want_early and (ck, pol) in atoms
-        got = [a for a in atoms if ck in a[0]]
+        # a return inside a loop over the children ends the search: it must be the deciding constant, taken exactly when
+        # the delegated call on the current child has the deciding truth value (a loop that returns the first child's own
+        # result, or the other constant, lets one child decide for all)
+        ok = rv == want_early and any((ck, pol) in atoms for ck in cks)
+        got = [a for a in atoms if any(ck in a[0] for ck in cks)]
         ctx.ob(rid, fn, r, ok, 'early return in %s' % qname,
                ('returns %s under %s; %s-semantics needs "return %s" exactly when a child %s' % (
-                   rv, got, mode, 'true' if want_early else 'false', 'matches' if pol else 'does not hold')))
+                   rv if rv is not None else fn.key(fn.nodes[r].get('val', -1))[:60], got, mode, 'true' if want_early else 'false',
+                   'matches' if pol else 'does not hold')))
+    for f_ in final[1:]:
+        rv = fn.val(fn.nodes[f_].get('val'))
+        ctx.ob(rid, fn, f_, rv == 1 - want_early, 'further fall-through return in %s' % qname, 'returns %s' % rv)
     rv = fn.val(fn.nodes[final[0]].get('val'))
     ctx.ob(rid, fn, final[0], rv == 1 - want_early, 'final return in %s' % qname,
            'fall-through returns %s' % rv)
